@@ -791,7 +791,10 @@ pub fn run_trace(trace: &Trace, ctx: &mut Ctx) -> RunOutcome {
                 ctx.deliveries += 1;
                 ctx.counters.inc(&format!("alter.{}", alter.kind()));
                 ctx.counters.inc(&format!("via.{}", via));
-                ctx.log.add(format!("{:?}", v).as_bytes());
+                // proof bytes are random (blinding from thread_rng): whether an altered proof fails to decode
+                // (Err) or decodes and fails (false) is not under the simulator's control, so the log records
+                // only the class the oracle distinguishes
+                ctx.log.add(match v { Verdict::True => b"T", Verdict::Panic => b"P", _ => b"N" });
                 if reader.fail_at.is_some() {
                     // a failing stream: any outcome but acceptance of a broken condition / panic
                     if v == Verdict::Panic {
